@@ -236,8 +236,21 @@ func (im *impl) track(s int, fid uint32) {
 	}
 }
 
+// the package-global tree ramfs.NewServer serves is used by ONE sequence per process, the first, while it is
+// still in the state the package initialises it to: model, reference and the nref/links table are thereby
+// also compared with the SHIPPED initial state (root reference count, root mode, first qid path), not only
+// with the copy of it in the VerifNewServer hook
+var shippedUsed bool
+
 func newImpl(nsess int) *impl {
-	im := &impl{fs: ramfs.VerifNewServer(), nodes: map[uint64]ramfs.VerifEntRef{}}
+	var fs p9p.FileSys
+	if !shippedUsed {
+		shippedUsed = true
+		fs = ramfs.NewServer(context.Background())
+	} else {
+		fs = ramfs.VerifNewServer()
+	}
+	im := &impl{fs: fs, nodes: map[uint64]ramfs.VerifEntRef{}}
 	for i := 0; i < nsess; i++ {
 		im.sess = append(im.sess, p9p.SFileSys(im.fs))
 		im.isDir = append(im.isDir, map[uint32]bool{})
